@@ -4,7 +4,8 @@
    MaxTextResponseByteLength); calendar: Codec/C28Date.v. *)
 From Coq Require Import List NArith ZArith Bool.
 Import ListNotations.
-From GMS Require Import Codec.C28Date Codec.C28DateProofs Codec.C28Wire Codec.C28WireProofs.
+From GMS Require Import Codec.C28Date Codec.C28DateProofs Codec.C28Wire Codec.C28WireProofs Codec.C28WireProofs2
+  Codec.C28Str Codec.C28Bin Codec.C28BinProofs.
 Open Scope Z_scope.
 
 (* strconv.AppendInt followed by strconv.ParseInt is the identity on every integer (no width bound) *)
@@ -104,6 +105,81 @@ Theorem C28_text_len_decimal_precision_eq_scale_refuted :
   exists d, dexp d = -2 /\ 0 <= dcoef d < 10 ^ 2 /\ dec_announced 2 2 < Z.of_nat (length (dec_sql_text true 2 d)).
 Proof. exact dec_text_len_refuted. Qed.
 Print Assumptions C28_text_len_decimal_precision_eq_scale_refuted.
+
+(* DATETIME(n) / TIMESTAMP(n) (one formatter, one parser), n = 0..6: every instant other than the zero date that is a
+   multiple of 10^(6-n) microseconds, lies in civil years 1000..9999 and passes Convert's range check is printed with
+   exactly n fraction digits (19 bytes, or 20 + n) and read back *)
+Theorem C28_datetime_text_roundtrip :
+  forall n x, (n <= 6)%nat -> x mod frac_unit n = 0 -> x <> zero_time_us -> 1000 <= year_of_us x <= 9999 ->
+    datetime_range_ok n x = true ->
+    exists t, datetime_sql_text n x = Some t /\ datetime_convert_text n t = Some x /\
+              length t = datetime_text_len n /\ Z.of_nat (length t) <= datetime_announced.
+Proof.
+  intros n x H1 H2 H3 H4 H5. destruct (datetime_text_roundtrip n x (conj H1 (conj H2 (conj H3 (conj H4 H5))))) as (t & A & B & C).
+  exists t. repeat split; auto. rewrite C. now apply datetime_len_le_announced.
+Qed.
+Print Assumptions C28_datetime_text_roundtrip.
+
+Theorem C28_zero_datetime_text_roundtrip :
+  forall n, (n <= 6)%nat ->
+    exists t, datetime_sql_text n zero_time_us = Some t /\ datetime_convert_text n t = Some zero_time_us /\
+              length t = datetime_text_len n.
+Proof. exact datetime_zero_roundtrip. Qed.
+Print Assumptions C28_zero_datetime_text_roundtrip.
+
+(* TIME: the whole storable range -838:59:59 .. 838:59:59 (hours of 2 or 3 digits, sign, 6 fraction digits), and
+   the text never exceeds the 17 announced bytes *)
+Theorem C28_time_text_roundtrip :
+  forall x, - time_max_us <= x <= time_max_us ->
+    time_convert_text (time_sql_text x) = Some x /\ Z.of_nat (length (time_sql_text x)) <= time_announced.
+Proof. exact time_text_roundtrip. Qed.
+Print Assumptions C28_time_text_roundtrip.
+
+(* SET: comma-joined member names <-> bit mask, for duplicate-free, non-empty, comma-free member names *)
+Theorem C28_set_text_roundtrip :
+  forall names b, NoDup names -> Forall (fun n => n <> [] /\ no_comma n) names -> 0 <= b < 2 ^ Z.of_nat (length names) ->
+    set_convert_text names (set_sql_text names b) = Some b.
+Proof. exact set_text_roundtrip. Qed.
+Print Assumptions C28_set_text_roundtrip.
+
+(* utf8: a byte string never has more than 4 bytes per rune, runes counted as Go does (len([]rune(s))) *)
+Theorem C28_bytes_le_4_runes : forall s, (length s <= 4 * rune_count s)%nat.
+Proof. exact bytes_le_4_runes. Qed.
+Print Assumptions C28_bytes_le_4_runes.
+
+(* ENUM / SET announced lengths (4 bytes per rune of the longest member; of all members plus separators) *)
+Theorem C28_enum_set_text_len_le_announced :
+  (forall names i, (length (enum_sql_text names i) <= enum_announced names)%nat) /\
+  (forall names b, (length (set_sql_text names b) <= set_announced names)%nat).
+Proof. split; [exact enum_text_len|exact set_text_len]. Qed.
+Print Assumptions C28_enum_set_text_len_le_announced.
+
+(* VARCHAR(n) / VARBINARY(n) / TEXT (utf8mb4): the text is the stored byte string, Convert accepts it again, and it
+   fits chars * 4 (VARCHAR), n (VARBINARY), 65535 * 4 (TEXT) *)
+Theorem C28_string_text_roundtrip :
+  forall t s, str_convert_text t s = Some s ->
+    str_convert_text t (str_sql_text t s) = Some s /\ (length (str_sql_text t s) <= str_announced t)%nat.
+Proof. exact str_text_roundtrip. Qed.
+Print Assumptions C28_string_text_roundtrip.
+
+(* binary protocol (vitess val2MySQL applied to the text, then a client's reader): integers of every type *)
+Theorem C28_int_binary_roundtrip :
+  forall t v, ity_min t <= v <= ity_max t ->
+    exists b, int_bin t (int_sql_text t v) = Some b /\ int_bin_decode t b = v /\ length b = ity_width t.
+Proof. exact int_binary_roundtrip. Qed.
+Print Assumptions C28_int_binary_roundtrip.
+
+(* length-encoded strings (DECIMAL, strings, BIT, ENUM, SET travel like this) *)
+Theorem C28_lenenc_roundtrip : forall s, Z.of_nat (length s) < 2 ^ 64 -> lenenc_decode (lenenc_str s) = Some s.
+Proof. exact lenenc_roundtrip. Qed.
+Print Assumptions C28_lenenc_roundtrip.
+
+(* DATE: text -> 4-byte struct -> the same instant *)
+Theorem C28_date_binary_roundtrip :
+  forall x, x mod us_per_day = 0 -> x <> zero_time_us -> (year_of_us x = 0 \/ 1000 <= year_of_us x <= 9999) ->
+    exists t b, date_sql_text x = Some t /\ datetime_bin t = Some b /\ datetime_bin_decode b = Some x /\ length b = 5%nat.
+Proof. intros x H1 H2 H3. exact (date_binary_roundtrip x (conj H1 (conj H2 H3))). Qed.
+Print Assumptions C28_date_binary_roundtrip.
 
 (* non-vacuity: the hypotheses are satisfiable and the texts are the expected ones *)
 Example C28_nonvacuous :
